@@ -338,6 +338,10 @@ def run_c06(rep, tier, seed):
 
 def run_c17(rep, tier, seed):
     _run(rep, tier, seed, "alias", FOCUS["alias"] + ["index", "sortidx"])
+    # x op= y over the unit / operand-kind lattice of ArrayMachine (scaled dimensionless units, Quantities, float32 operands):
+    # value and unit of x op y, x the same object, y untouched
+    from . import arrays
+    arrays.run_families(rep, tier, seed, {"inplace"}, "in-place operators over the unit lattice")
 
 
 def run_c20(rep, tier, seed):
